@@ -38,7 +38,7 @@ def make_module(memtype, rowbits=11, colbits=4, bankbits=1, clk=100e6):
 class ModelHarness(Harness):
     TRP, TRCD, TRAS = 2, 2, 3
 
-    def __init__(self, memtype="SDR", K=4, databits=8, rows=(0, 5), masks=True, we_granularity=8):
+    def __init__(self, memtype="SDR", K=4, databits=8, rows=(0, 5), masks=True, we_granularity=8, dual=False, autopre=False):
         from litedram.phy.model import SDRAMPHYModel
         self.memtype = memtype; self.K = K
         module = make_module(memtype)
@@ -80,6 +80,10 @@ class ModelHarness(Harness):
         self.maskset = (0, 1, full & ~1) if masks else (0,)
         self.cov = {}
         self.no_selfcheck = False
+        # dual: a row command (ACT/PRE on the command phase) and a column command (RD/WR on its own phase, other bank) in the same controller
+        # cycle, as LiteDRAM's multiplexer issues them on multi-phase PHYs; autopre: RD/WR with A10 set (auto-precharge), the controller default
+        self.dual = dual and self.nph >= 2 and self.cmdphase not in (self.rdphase, self.wrphase)
+        self.autopre = autopre
 
     def word(self, tag):
         w = 0
@@ -95,22 +99,30 @@ class ModelHarness(Harness):
         bud, banks, wpipe, rpipe, refmem, dutmem = E
         out = [("nop",)]
         if bud <= 0: return out
+        rowops = []; colops = []
         for b, (row, a_act, a_pre, a_wr) in enumerate(banks):
             if row == -1:
                 if a_pre >= self.TRP:
-                    for r in self.rows: out.append(("act", b, r))
+                    for r in self.rows: rowops.append(("act", b, r))
             else:
                 if a_act >= self.TRCD:
-                    wr_pending = any(x[1] == b for x in wpipe)
                     for col in self.cols:
-                        if not wpipe: out.append(("rd", b, col))       # reads wait until write data in flight has been transferred
+                        if not wpipe:
+                            colops.append(("rd", b, col))       # reads wait until write data in flight has been transferred
+                            if self.autopre and a_act >= self.TRAS and a_wr >= self.WL + 2: colops.append(("rda", b, col))
                         for tag in (1, 2):
                             for m in (self.maskset if tag == 1 else self.maskset[:1]):
-                                out.append(("wr", b, col, tag, m))
+                                colops.append(("wr", b, col, tag, m))
+                        if self.autopre: colops.append(("wra", b, col, 2, 0))
                 if a_act >= self.TRAS and a_wr >= self.WL + 2 and not any(x[1] == b for x in wpipe):
-                    out.append(("pre", b))
+                    rowops.append(("pre", b))
+        out += rowops + colops
         if all(row == -1 or (a_act >= self.TRAS and a_wr >= self.WL + 2) for (row, a_act, a_pre, a_wr) in banks) and not wpipe and any(r[0] != -1 for r in banks):
             out.append(("prea",))
+        if self.dual and bud >= 2:
+            for ro in rowops:
+                for co in colops:
+                    if ro[1] != co[1]: out.append(("dual", ro, co))
         return out
 
     def describe(self, ch):
@@ -125,19 +137,22 @@ class ModelHarness(Harness):
         bud, banks, wpipe, rpipe, refmem, dutmem = E
         I = list(self.base)
         op = ch[0]
-        if op != "nop":
-            if op == "act": ph, b, a, ras, cas, we = self.cmdphase, ch[1], ch[2], 0, 1, 1
-            elif op == "pre": ph, b, a, ras, cas, we = self.cmdphase, ch[1], 0, 0, 1, 0
-            elif op == "prea": ph, b, a, ras, cas, we = self.cmdphase, 0, 1 << 10, 0, 1, 0
-            elif op == "rd": ph, b, a, ras, cas, we = self.rdphase, ch[1], ch[2], 1, 0, 1
-            else: ph, b, a, ras, cas, we = self.wrphase, ch[1], ch[2], 1, 0, 0
+        cmds = [] if op == "nop" else ([ch[1], ch[2]] if op == "dual" else [ch])
+        wrc = None
+        for cm in cmds:
+            o = cm[0]
+            if o == "act": ph, b, a, ras, cas, we = self.cmdphase, cm[1], cm[2], 0, 1, 1
+            elif o == "pre": ph, b, a, ras, cas, we = self.cmdphase, cm[1], 0, 0, 1, 0
+            elif o == "prea": ph, b, a, ras, cas, we = self.cmdphase, 0, 1 << 10, 0, 1, 0
+            elif o in ("rd", "rda"): ph, b, a, ras, cas, we = self.rdphase, cm[1], cm[2] | ((1 << 10) if o == "rda" else 0), 1, 0, 1
+            else: ph, b, a, ras, cas, we = self.wrphase, cm[1], cm[2] | ((1 << 10) if o == "wra" else 0), 1, 0, 0; wrc = cm
             d = self.i_ph[ph]
             I[d["cs_n"]] = 0; I[d["ras_n"]] = ras; I[d["cas_n"]] = cas; I[d["we_n"]] = we; I[d["bank"]] = b; I[d["address"]] = a
-            if op == "rd" and "rddata_en" in d: I[d["rddata_en"]] = 1
-            if op == "wr" and "wrdata_en" in d: I[d["wrdata_en"]] = 1
+            if o in ("rd", "rda") and "rddata_en" in d: I[d["rddata_en"]] = 1
+            if o in ("wr", "wra") and "wrdata_en" in d: I[d["wrdata_en"]] = 1
         # write data due this cycle (write_latency cycles after its command)
         due = [x for x in wpipe if x[0] == 0]
-        if op == "wr" and self.WL == 0: due = due + [(0, ch[1], None, ch[2], ch[3], ch[4])]
+        if wrc is not None and self.WL == 0: due = due + [(0, wrc[1], None, wrc[2], wrc[3], wrc[4])]
         if due:
             tag, mask = due[0][4], due[0][5]
             w = self.word(tag)
@@ -205,31 +220,41 @@ class ModelHarness(Harness):
         for bk in banks:
             for k in (1, 2, 3):
                 if bk[k] < 9: bk[k] += 1
-        if op != "nop": bud -= 1
-        if op == "act":
-            banks[ch[1]][0] = ch[2]; banks[ch[1]][1] = 0
-        elif op == "pre":
-            banks[ch[1]][0] = -1; banks[ch[1]][2] = 0
-        elif op == "prea":
-            for bk in banks:
-                if bk[0] != -1: bk[0] = -1; bk[2] = 0
-        elif op == "rd":
-            b, col = ch[1], ch[2]
-            key = (b, banks[b][0], col // self.cpw)
-            rpipe = rpipe + ((self.RL - 1, ref.get(key, self._init_word(key))),) if self.RL > 0 else rpipe
-            self.cov["RD"] = self.cov.get("RD", 0) + 1
-        elif op == "wr":
-            b, col, tag, mask = ch[1], ch[2], ch[3], ch[4]
-            banks[b][3] = 0
-            if self.WL == 0:
+        cmds = [] if op == "nop" else ([ch[2], ch[1]] if op == "dual" else [ch])     # column command first: it refers to the state before the row command
+        bud -= len(cmds)
+        for cm in cmds:
+            o = cm[0]
+            if o == "act":
+                banks[cm[1]][0] = cm[2]; banks[cm[1]][1] = 0
+            elif o == "pre":
+                banks[cm[1]][0] = -1; banks[cm[1]][2] = 0
+            elif o == "prea":
+                for bk in banks:
+                    if bk[0] != -1: bk[0] = -1; bk[2] = 0
+            elif o in ("rd", "rda"):
+                b, col = cm[1], cm[2]
                 key = (b, banks[b][0], col // self.cpw)
-                old = ref.get(key, self._init_word(key)); w = self.word(tag)
-                for l in range(self.nbytes):
-                    if not (mask >> l) & 1: old = (old & ~(0xff << (8 * l))) | (w & (0xff << (8 * l)))
-                ref[key] = old
+                rpipe = rpipe + ((self.RL - 1, ref.get(key, self._init_word(key))),) if self.RL > 0 else rpipe
+                self.cov["RD"] = self.cov.get("RD", 0) + 1
+                if o == "rda":
+                    banks[b][0] = -1; banks[b][2] = -2          # internal precharge: the bank may be activated again tRP + 2 cycles later (conservative)
+                    self.cov["RDA"] = self.cov.get("RDA", 0) + 1
             else:
-                wpipe = wpipe + ((self.WL - 1, b, banks[b][0], col, tag, mask),)
-            self.cov["WR"] = self.cov.get("WR", 0) + 1
+                b, col, tag, mask = cm[1], cm[2], cm[3], cm[4]
+                banks[b][3] = 0
+                if self.WL == 0:
+                    key = (b, banks[b][0], col // self.cpw)
+                    old = ref.get(key, self._init_word(key)); w = self.word(tag)
+                    for l in range(self.nbytes):
+                        if not (mask >> l) & 1: old = (old & ~(0xff << (8 * l))) | (w & (0xff << (8 * l)))
+                    ref[key] = old
+                else:
+                    wpipe = wpipe + ((self.WL - 1, b, banks[b][0], col, tag, mask),)
+                self.cov["WR"] = self.cov.get("WR", 0) + 1
+                if o == "wra":
+                    banks[b][0] = -1; banks[b][2] = -(self.WL + 3)   # internal precharge after write recovery (conservative)
+                    self.cov["WRA"] = self.cov.get("WRA", 0) + 1
+            if op == "dual": self.cov["dual"] = self.cov.get("dual", 0) + 1
         # ---- final memory comparison at quiescence
         if bud <= 0 and not wpipe and not rpipe:
             want = {}
@@ -320,9 +345,16 @@ def configs(tier):
         for mt, K in (("SDR", 4), ("DDR2", 4), ("DDR3", 4)):
             mc.append(("trace-%s-K%d" % (mt, K), dict(memtype=mt, K=K)))
         mc.append(("trace-DDR3-K4-nogran", dict(memtype="DDR3", K=4, we_granularity=0, masks=False)))
+        # the controller's real issue pattern on multi-phase PHYs: row + column command in one cycle, auto-precharge, a row with A10 set
+        mc.append(("trace-DDR3-K4-dual-autopre", dict(memtype="DDR3", K=4, dual=True, autopre=True, masks=False, rows=(0, 1029))))
+        mc.append(("trace-DDR2-K4-dual-autopre", dict(memtype="DDR2", K=4, dual=True, autopre=True, masks=False, rows=(0, 1029))))
+        mc.append(("trace-SDR-K4-autopre", dict(memtype="SDR", K=4, autopre=True, masks=False, rows=(0, 1029))))
     else:
         for mt in ("SDR", "DDR", "LPDDR", "DDR2", "DDR3", "DDR4"):
             mc.append(("trace-%s-K5" % mt, dict(memtype=mt, K=5)))
+        for mt in ("DDR", "LPDDR", "DDR2", "DDR3", "DDR4"):
+            mc.append(("trace-%s-K5-dual-autopre" % mt, dict(memtype=mt, K=5, dual=True, autopre=True, masks=False, rows=(0, 1029))))
+        mc.append(("trace-SDR-K5-autopre", dict(memtype="SDR", K=5, autopre=True, masks=False, rows=(0, 1029))))
         mc.append(("trace-SDR-K6-nomask", dict(memtype="SDR", K=6, masks=False)))
         mc.append(("trace-DDR3-K5-x16", dict(memtype="DDR3", K=5, databits=16, masks=False)))
     for mt in (("SDR", "DDR3") if tier == "quick" else ("SDR", "DDR", "DDR2", "DDR3", "DDR4")):
